@@ -13,13 +13,21 @@ Scopes of the specification bound here: 2x3 / 1x5 / 1x7 / 2x2 exhaustive, 3x3 / 
 x 4 frames at omega 0,2,2,1 (non-monotonic, zero step), 1x3 (quick: 1x2) x 2 frames over -2..1 at threshold -2 (negthr*: the strict
 property is violated by the MAXFIX = FALSE model; the counterexample is replayed -> known finding
 C12-max-pixel-nonpositive-blob or a violation; on a tree that follows the repaired rule the MAXFIX = TRUE
-model is bound instead).
+model is bound instead); 2x3 x 2 frames over {2, NaN} and 2x3 x 1 frame over {0, 2, NaN} at threshold 1 (thorough
+also 1x5 x 3 frames over {2, NaN}): not-a-number pixels, which the spec's Above() makes background (NaN > t is
+false for every t) - every behaviour replayed with float nan in the frames.
 Instance families outside the model's constants (covariance argument in the header of Merge3D.tla), judged by
 the transcription on exact rationals of the float32 inputs and by the flood fill: uint16 to 65535, int32 to
 2^20, float32 k/8, int32 beyond 2^24 (rounded to float32; I^2 sums within a rounding bound), negative
 background, negative threshold on positive data, shapes 33x20 .. 40x1 / 1x40, 64x2048 and 2048x64, omega with
 zero step / non-monotonic / not float32-representable (expectation narrowed like the f2py wrapper does; omega
-sums within a rounding bound).  Further routes: output2dpeaks between peaksearch and mergelast and the .spt
+sums within a rounding bound), float32 / float64 frames with NaN pixels (dead pixel on every frame, between two
+blobs, under / over a blob of the adjacent frame, holes, borders and corners, 5 % sprinkle; the classes are
+counted in notes.nan_pixels).  The SIZE family (harness/c12_big.py; notes.large_frames): frames with >= 16384 and
+>= 32768 blobs / provisional labels (isolated pixels on 258..400 squares, teeth joined by bars, checkerboards,
+noise on 600x600), two or three frames with merges between them, through labelimage and judged by the property
+alone (scipy.ndimage.label on the stacked volume: number of peaks, total pixels / intensity, multiset of rows,
+maximum positions; per frame npk, the partition in blim, the sums in res).  Further routes: output2dpeaks between peaksearch and mergelast and the .spt
 streams of peaksearcher.peaksearch / scripts/peaksearch.py (2-D peaks = the model's `res` after Peaksearch,
 frame records), measurepeaks(blim=labels made by the caller), flip1..8 and a non-trivial spatial corrector
 (dety/detz/sc/fc columns against an own table), the threaded script pipeline with --start/--step.
@@ -35,6 +43,7 @@ import numpy as np
 
 import common
 import c12_model as M
+import c12_big as BIG3D
 
 PROP = "C12"
 SPEC = "Merge3D"
@@ -53,6 +62,16 @@ def omega_fn(om0, omstep):
     else:
         a, b = Fraction(om0), Fraction(omstep)          # exact for dyadic floats
     return lambda k: a + (k - 1) * b
+
+
+NANI = 1000         # Merge3D.tla NaN: the integer that stands for a not-a-number pixel in TLC's frames
+NAN = float("nan")
+
+
+def _dec(frames):
+    """TLC's frames -> the frames handed to the code / the transcription: NaN pixels become float nan (nan > thr is
+    False in the transcription and in the flood fill as it is in C: background by the comparison itself)"""
+    return [[NAN if v == NANI else v for v in f] for f in frames]
 
 
 def _pix(v):
@@ -118,7 +137,7 @@ class _cfg(tuple):
 
     def __new__(cls, ns, nf, thr, om0, omstep, **kw):
         t = tuple.__new__(cls, (ns, nf, thr, om0, omstep))
-        t.extra = {"omseq": None, "maxfix": False, "asis": False}
+        t.extra = {"omseq": None, "maxfix": False, "asis": False, "nan": False}
         t.extra.update(kw)
         return t
 
@@ -139,6 +158,8 @@ CFG = {
     "negthr_fix": _cfg(1, 3, -2, 0, 1, maxfix=True),
     "negthr_q": _cfg(1, 2, -2, 0, 1), "negthr_asis_q": _cfg(1, 2, -2, 0, 1, asis=True),
     "negthr_fix_q": _cfg(1, 2, -2, 0, 1, maxfix=True),
+    "nan_2x3_f2": _cfg(2, 3, 1, 1, 1, nan=True), "nan_2x3_f1": _cfg(2, 3, 1, 1, 1, nan=True),
+    "nan_1x5_f3": _cfg(1, 5, 1, 1, 1, nan=True),
 }
 FINDING_MAX = "C12-max-pixel-nonpositive-blob"
 FINDING_COL = "C12-one-column-image-labels"
@@ -160,6 +181,10 @@ def cfg_case(name, frames, origin):
         extra["maxfix"] = True
     if g["asis"]:
         extra["asis"] = True
+    if g["nan"]:
+        frames = _dec(frames)
+        extra["dtype"] = "float32"
+        extra["family"] = "NaN pixels (TLC scope)"
     return make_case(g["ns"], g["nf"], g["thr"], g["om0"], g["omstep"], frames, origin, **extra)
 
 
@@ -195,9 +220,10 @@ def model_step(m, frame):
 class StepCache(object):
     """model expectations for behaviours that share prefixes (behaviours come sorted)"""
 
-    def __init__(self, ns, nf, thr, omega, maxfix=False):
+    def __init__(self, ns, nf, thr, omega, maxfix=False, nan=False):
         self.args = (ns, nf, thr, omega, None, maxfix)
         self.stack = []
+        self.nan = nan
 
     def get(self, frames):
         d = 0
@@ -206,7 +232,7 @@ class StepCache(object):
         del self.stack[d:]
         m = self.stack[-1][1].clone() if self.stack else M.Model(*self.args)
         for f in frames[d:]:
-            st = model_step(m, f)
+            st = model_step(m, _dec([f])[0] if self.nan else f)
             self.stack.append((f, m.clone(), st))
         steps = [s[2] for s in self.stack]
         m.finalise()
@@ -794,6 +820,8 @@ def property_judge(case, rows, asis=None):
     kernels see them (float32).  asis: see M.judge_against_components (default: the case's flag)"""
     ex = []
     for r in rows:
+        if not all(np.isfinite(float(x)) for x in r):
+            return "emitted peak carries non-finite values: %r" % ([float(x) for x in r],)
         ex.append([int(x) if float(x).is_integer() else Fraction(x) for x in r])
     return M.judge_against_components(ex, model_frames(case), case["ns"], case["nf"], model_thr(case), omega_of(case),
                                       approx=bool(case.get("approx")),
@@ -1004,13 +1032,19 @@ def crosscheck_steps(recs, name):
         m = M.Model(ns, nf, thr, omega, maxfix=g["maxfix"])
         for k, f in enumerate(frs):
             pre = frs[:k + 1]
-            m.peaksearch(f)
-            seq = [("searched", m.observable())]
+
+            def obs():
+                o = m.observable()
+                if g["nan"]:
+                    o["fr"] = [list(x) for x in pre]         # as TLC writes them (NaN = NANI)
+                return o
+            m.peaksearch(_dec([f])[0] if g["nan"] else f)
+            seq = [("searched", obs())]
             m.mergelast(stop_after_kernel=True)
             if m.pc == "output":
-                seq.append(("output", m.observable()))
+                seq.append(("output", obs()))
                 m.finish_mergelast()
-            seq.append(("idle", m.observable()))
+            seq.append(("idle", obs()))
             if pre in cache:
                 continue
             cache[pre] = 1
@@ -1022,6 +1056,8 @@ def crosscheck_steps(recs, name):
                 n += 1
         m.finalise()
         o = m.observable()
+        if g["nan"]:
+            o["fr"] = [list(x) for x in frs]
         if o != d:
             raise common.MachineryError("transcription and TLC disagree (%s) at done of %r:\n%r\n%r" % (name, frs, o, d))
         n += 1
@@ -1246,6 +1282,100 @@ def omega_cases(rng):
     return out
 
 
+def _nan_stats(case):
+    """how many NaN pixels of a case sit where a kernel that let them through would change the answer: in the
+    interior of the frame / on its border, next to a blob pixel (8-neighbour or same pixel on an adjacent frame),
+    between two different components (a bridge)"""
+    ns, nf, thr = case["ns"], case["nf"], model_thr(case)
+    fr = np.array([[float(v) for v in f] for f in case["frames"]], dtype=float).reshape(-1, ns, nf)
+    nanm = np.isnan(fr)
+    with np.errstate(invalid="ignore"):
+        fg = (~nanm) & (fr > thr)
+    from scipy import ndimage
+    lab, _n = ndimage.label(fg, structure=BIG3D.ST3)
+    st = {"nan": int(nanm.sum()), "interior": 0, "border": 0, "touching a blob": 0, "bridge": 0}
+    for k, s_, f_ in zip(*np.nonzero(nanm)):
+        inner = 1 <= s_ and 1 <= f_ <= nf - 2
+        st["interior" if inner else "border"] += 1
+        near = set(lab[k, max(0, s_ - 1):s_ + 2, max(0, f_ - 1):f_ + 2].ravel().tolist())
+        for k2 in (k - 1, k + 1):
+            if 0 <= k2 < len(fr):
+                near.add(int(lab[k2, s_, f_]))
+        near.discard(0)
+        st["touching a blob"] += int(len(near) >= 1)
+        st["bridge"] += int(len(near) >= 2)
+    return st
+
+
+def nan_cases(rng):
+    """float frames with not-a-number pixels (dead pixels, 0/0 of a flood field that is zero somewhere).  By the
+    statement a voxel is in a peak iff it is above the threshold; NaN > t is false: such a pixel is background, it
+    belongs to no component, joins nothing and adds neither a pixel nor intensity (Merge3D.tla: Above).  Classes:
+    a dead pixel (NaN on every frame) in the interior next to a blob, a NaN between two blobs of one frame, a NaN
+    that would link blobs of adjacent frames, a NaN inside a blob (a hole), isolated ones, NaN on the first / last
+    row and column and the corners, a sprinkle of 5 % NaN; float32 and float64 input."""
+    out = []
+    # 1. by hand: two blobs two columns apart with the NaN between them, a dead pixel beside a blob, border NaNs
+    ns, nf = 7, 8
+    fr = [[1.0] * (ns * nf) for _ in range(4)]
+
+    def put(k, s_, f_, v):
+        fr[k][s_ * nf + f_] = v
+    for k in (0, 1, 2):
+        for s_ in (1, 2, 3):
+            put(k, s_, 1, 10 + k + s_)
+            put(k, s_, 2, 20 + 2 * k + s_)
+            put(k, s_, 4, 30 - k - s_)
+            put(k, s_, 5, 9 + k + 2 * s_)
+    put(1, 2, 3, NAN)                       # between the two blobs, interior
+    for k in range(4):
+        put(k, 4, 3, NAN)                   # dead pixel under both blobs (diagonal neighbour of each)
+    put(3, 2, 2, NAN)                       # frame 3: only a NaN above frame 2's blob pixel
+    put(3, 5, 6, 50.0)
+    put(2, 5, 6, NAN)                       # NaN below a blob pixel of the next frame
+    put(0, 0, 3, NAN), put(0, ns - 1, 0, NAN), put(0, 3, 0, NAN), put(0, 3, nf - 1, NAN), put(3, ns - 1, nf - 1, NAN)
+    put(3, 0, 0, NAN)
+    out.append(make_case(ns, nf, 5, 10, 0.5, fr, "NaN by hand", dtype="float32", family="NaN pixels"))
+    # 2. random series with NaN injected
+    shapes = [(16, 16), (8, 16), (5, 7), (12, 3), (6, 9)]
+    for k in range(8):
+        ns, nf = shapes[k % len(shapes)]
+        nfr = rng.choice([2, 3, 5, 8])
+        fr = [[float(v) for v in f] for f in _random_frames(rng, ns, nf, nfr, dens=rng.choice([0.03, 0.08, 0.15]))]
+        thr = [0, 1, 2.5, 0][k % 4]
+        fgpix = [(q, p) for q in range(nfr) for p in range(ns * nf) if fr[q][p] > thr]
+        # next to blob pixels: one of the 8 neighbours / the same pixel on an adjacent frame
+        for _ in range(max(3, len(fgpix) // 6)):
+            if not fgpix:
+                break
+            q, p = rng.choice(fgpix)
+            s_, f_ = divmod(p, nf)
+            if rng.random() < 0.3 and nfr > 1:
+                q2 = q + rng.choice([-1, 1])
+                if 0 <= q2 < nfr:
+                    fr[q2][p] = NAN
+                continue
+            s2, f2 = s_ + rng.choice([-1, 0, 1]), f_ + rng.choice([-1, 0, 1])
+            if 0 <= s2 < ns and 0 <= f2 < nf and not (fr[q][s2 * nf + f2] > thr and rng.random() < 0.7):
+                fr[q][s2 * nf + f2] = NAN          # mostly beside the blob, sometimes a hole in it
+        p = rng.randrange(ns * nf)                     # a dead pixel: NaN on every frame
+        for q in range(nfr):
+            fr[q][p] = NAN
+        for q in range(nfr):                           # border and corners
+            for p in (rng.randrange(nf), (ns - 1) * nf + rng.randrange(nf), rng.randrange(ns) * nf,
+                      rng.randrange(ns) * nf + nf - 1):
+                if rng.random() < 0.5:
+                    fr[q][p] = NAN
+        if k % 4 == 3:                                 # a sprinkle
+            for q in range(nfr):
+                for p in range(ns * nf):
+                    if rng.random() < 0.05:
+                        fr[q][p] = NAN
+        out.append(make_case(ns, nf, thr, [0, 10, -3][k % 3], [1, 0.25, -0.5][k % 3], fr, "NaN random #%d" % k,
+                             dtype=["float32", "float64"][k % 2], family="NaN pixels"))
+    return out
+
+
 def handmade_cases():
     """the situations named in the property statement, by hand"""
     cs = []
@@ -1271,7 +1401,7 @@ def handmade_cases():
 def _replay_set(R, chk, name, behaviours, tlc_out, routes, stats, file_every=0, limit_fail=30, kernels_every=1):
     """behaviours: list of frame lists (tuples).  tlc_out: dict frames -> out from TLC (or None)."""
     g = CFG[name]
-    cache = StepCache(g["ns"], g["nf"], g["thr"], cfg_omega(name), maxfix=g["maxfix"])
+    cache = StepCache(g["ns"], g["nf"], g["thr"], cfg_omega(name), maxfix=g["maxfix"], nan=g["nan"])
     nfail = 0
     behaviours = sorted(behaviours)
     for n, frs in enumerate(behaviours):
@@ -1470,8 +1600,16 @@ def _extended_series(R, chk, shadow, tier, stats):
     reps = 1 if tier == "quick" else 4
     cases = []
     for _ in range(reps):
-        cases += value_cases(rng) + shape_cases(rng) + omega_cases(rng)
+        cases += value_cases(rng) + shape_cases(rng) + omega_cases(rng) + nan_cases(rng)
     cases += big_shape_cases(rng)
+    nanst = collections.Counter()
+    for case in cases:
+        if case.get("family") == "NaN pixels":
+            nanst.update(_nan_stats(case))
+    for k in ("interior", "border", "touching a blob", "bridge"):
+        if not nanst[k]:
+            raise common.MachineryError("vacuity: family 'NaN pixels' has no NaN pixel of class %r" % k)
+    chk.notes["nan_pixels"] = dict(nanst)
     fam = collections.Counter()
     nontriv = collections.Counter()
     rstat = {}
@@ -1524,6 +1662,27 @@ def _extended_series(R, chk, shadow, tier, stats):
     for k, v in rstat.items():
         chk.notes.setdefault("two_d_output", {})["extended " + k] = v
     return len(cases)
+
+
+def _large_frames(R, chk, tier):
+    """the SIZE family (harness/c12_big.py): frames with >= 16384 and >= 32768 blobs / provisional labels, judged by
+    the property through scipy.ndimage.label on the stacked volume"""
+    fams = {}
+    most, most_comp = 0, 0
+    for case in BIG3D.cases(common.seed(), tier):
+        msg = guarded(BIG3D.drive, R, case)
+        chk.traces += 1
+        chk.case(("large", case["name"]), nontrivial=True)
+        if msg:
+            chk.violation("labelimage (large frames, %s): %s" % (case["name"], msg),
+                          {"large": {"name": case["name"], "seed": common.seed(), "tier": tier}, "route": "labelimage/large"})
+            continue
+        fams[case["name"]] = "blobs per frame %r, %d 3-D peaks" % (case["npks"], case["ncomp"])
+        most = max([most] + case["npks"])
+        most_comp = max(most_comp, case["ncomp"])
+    if not chk.violations and most < 32768:
+        raise common.MachineryError("vacuity: no frame of the size family carries 32768 blobs")
+    chk.notes["large_frames"] = fams
 
 
 def observe_histories(R, chk):
@@ -1596,6 +1755,18 @@ def observe_histories(R, chk):
 def run_replay(R, chk, shadow, path):
     with open(path) as f:
         obj = json.load(f)
+    if "large" in obj["case"]:          # the size family is regenerated from its seed (the volume is not stored)
+        lg = obj["case"]["large"]
+        case = [c for c in BIG3D.cases(lg["seed"], lg["tier"]) if c["name"] == lg["name"]][0]
+        msg = guarded(BIG3D.drive, R, case)
+        chk.traces += 1
+        chk.case(("replay", path))
+        if msg:
+            print("  violation: labelimage (large frames, %s): %s" % (lg["name"], msg))
+            chk.violations.append(("labelimage (large frames, %s): %s" % (lg["name"], msg), os.path.abspath(path)))
+        else:
+            print("replay %s: satisfies the property on the current tree" % path)
+        return
     case = obj["case"]["case"]
     steps, final, m = model_all(case)
     p = os.path.join(common.scratch(), "merged_replay.flt")
@@ -1653,6 +1824,9 @@ def run(tier, replay=None):
             _exhaustive(R, chk, "1x5_f2", tier, stats, coverage=False, steps=True, file_every=50)
             _exhaustive(R, chk, "2x2_thr1_q", tier, stats, coverage=False, steps=True, file_every=100)
             _exhaustive(R, chk, "1x2_f4_om", tier, stats, coverage=False, steps=True, file_every=50)
+            _exhaustive(R, chk, "nan_2x3_f1", tier, stats, coverage=False, steps=True, file_every=100)
+            _exhaustive(R, chk, "nan_2x3_f2", tier, stats, coverage=False, steps=True, file_every=500, kernels_every=4)
+            _large_frames(R, chk, tier)
             _negative_threshold(R, chk, tier, stats)
             _simulated(R, chk, "sim_3x3", tier, stats, num=30, ntraces=120)
             _random_series(R, chk, shadow, tier, stats, count=40, nscript=2)
@@ -1669,6 +1843,10 @@ def run(tier, replay=None):
             _exhaustive(R, chk, "2x3_f3", tier, stats, coverage=False, steps=False, file_every=5000, timeout=2400,
                         kernels_every=4)     # every behaviour through labelimage, every 4th also through the bare kernels
             _exhaustive(R, chk, "1x3_f4_om", tier, stats, coverage=False, steps=True, file_every=200)
+            _exhaustive(R, chk, "nan_2x3_f1", tier, stats, coverage=False, steps=True, file_every=100)
+            _exhaustive(R, chk, "nan_2x3_f2", tier, stats, coverage=True, steps=True, file_every=500)
+            _exhaustive(R, chk, "nan_1x5_f3", tier, stats, coverage=False, steps=False, file_every=1000, kernels_every=4)
+            _large_frames(R, chk, tier)
             _negative_threshold(R, chk, tier, stats)
             _simulated(R, chk, "sim_3x3", tier, stats, num=150, ntraces=400)
             _simulated(R, chk, "sim_4x4", tier, stats, num=100, ntraces=200)
@@ -1697,12 +1875,16 @@ def run(tier, replay=None):
                            "pixel) and checked against the kernel at every replayed frame; its scan is C11's",
                            "pixel values and omega are judged as the float32 the wrappers make of them "
                            "(astype(float32), `real omega`, `real threshold`)",
+                           "a not-a-number pixel is not above any threshold: background (Merge3D.tla Above); "
+                           "infinite pixels are not in scope (their sums are undefined)",
                            "components whose summed intensity is 0 (negative threshold only) have no "
                            "intensity-weighted centroid: their centroid / width columns are not judged"]
         chk.rule = ("behaviours = all frame sequences of the TLC scopes (2x3/1x5/1x7/2x2, 1x3 or 1x2 x 4 at omega 0,2,2,1, "
                     "1x3 or 1x2 x 2 over -2..1 at threshold -2 exhaustive, 3x3/4x4 simulated) + hand-made + seeded random series up to "
                     "40 frames of 16x16 + the instance families counted in notes.families (value classes, shapes "
-                    "to 2048, omega classes); non-trivial = at least one peak merged across frames")
+                    "to 2048, omega classes, NaN pixels) + 2x3 over {2, NaN} x 2 and {0, 2, NaN} x 1 exhaustive + the size "
+                    "family of notes.large_frames (up to 40000 blobs on a frame, judged by scipy.ndimage.label); "
+                    "non-trivial = at least one peak merged across frames")
         return chk.finish()
     finally:
         R.c.cimaged11_omp_set_num_threads(old_threads)
@@ -1823,6 +2005,48 @@ def selftest(R=None):
     a2 = [list(r) for r in asis]
     a2[0][M.I_] += 1
     must_reject("as-is judgement: intensity", lambda: property_judge(cn, a2, asis=True))
+    # 6e. not-a-number pixels: rows of a labelling that lets the NaN through (here: reads it as 7) are rejected
+    cn = make_case(3, 4, 1, 0, 1, [[5, 0, 0, 0, 0, NAN, 6, 0, 0, 0, 0, 0], [0, 0, 0, 0, 0, 0, NAN, 0, 0, 0, 0, 9]],
+                   "selftest NaN", dtype="float32")
+    sn, fn, mn = model_all(cn)
+    if route_labelimage(R, cn, sn, fn, mn.out) or route_kernels(R, cn, sn, fn, mn.out):
+        raise common.MachineryError("selftest: the NaN case does not pass on this tree (run the check first)")
+    rows = [[float(x) for x in r] for (r, _a, _b, _c) in mn.out]
+    if len(rows) != 3 or property_judge(cn, rows) is not None:
+        raise common.MachineryError("selftest: judge rejects the correct rows of the NaN case")
+    c7 = dict(cn, frames=[[7 if v != v else v for v in f] for f in cn["frames"]])
+    s7, f7, m7 = model_all(c7)
+    must_reject("NaN read as foreground (judge)",
+                lambda: property_judge(cn, [[float(x) for x in r] for (r, _a, _b, _c) in m7.out]))
+    must_reject("NaN read as foreground (labelimage)", lambda: route_labelimage(R, cn, s7, f7, m7.out))
+    must_reject("NaN sums", lambda: property_judge(cn, [rows[0][:1] + [NAN] + rows[0][2:]] + rows[1:]))
+    # 6f. the judge of the size family
+    rng = np.random.RandomState(5)
+    big = BIG3D.noise(rng, 40, 3, 0.2)
+    if BIG3D.drive(R, big) is not None:
+        raise common.MachineryError("selftest: the small instance of the size family does not pass on this tree")
+    exp, lab = BIG3D.component_rows(big["vol"], big["omegas"], big["thr"])
+    full = np.zeros((len(exp), M.NROW))
+    full[:, BIG3D.CORE] = exp
+    om = np.asarray(big["omegas"], float)
+    for j in range(len(exp)):
+        o_, s_, f_ = [a[0] for a in np.nonzero((lab == j + 1) & (big["vol"] == exp[j, 12]))]
+        full[j, [M.MXO_, M.MXS_, M.MXF_]] = om[o_], s_, f_
+    if BIG3D.judge(full, big["vol"], big["omegas"], big["thr"]) is not None:
+        raise common.MachineryError("selftest: the size judge rejects the components' own rows")
+    must_reject("size judge: a lost peak", lambda: BIG3D.judge(full[1:], big["vol"], big["omegas"], big["thr"]))
+    f2 = full.copy()
+    f2[0, M.N_] += 1
+    f2[1, M.N_] -= 1
+    must_reject("size judge: a pixel moved between peaks", lambda: BIG3D.judge(f2, big["vol"], big["omegas"], big["thr"]))
+    f2 = full.copy()
+    f2[0, M.BXS_] += 1
+    must_reject("size judge: bounding box", lambda: BIG3D.judge(f2, big["vol"], big["omegas"], big["thr"]))
+    f2 = full.copy()
+    f2[0, [M.MXO_, M.MXS_, M.MXF_]] = f2[1, [M.MXO_, M.MXS_, M.MXF_]]
+    must_reject("size judge: maximum position of another peak", lambda: BIG3D.judge(f2, big["vol"], big["omegas"], big["thr"]))
+    f2 = np.concatenate([full[2:], [full[0] + full[1]]])
+    must_reject("size judge: two peaks merged", lambda: BIG3D.judge(f2, big["vol"], big["omegas"], big["thr"]))
     # 7. transcription vs TLC: a perturbed TLC record must be noticed
     res = common.run_tlc(SPEC, "%s_1x5_f2.cfg" % SPEC, workers=4, timeout=600)
     recs, _ = _parse_printed(res)
